@@ -47,6 +47,7 @@ func init() {
 				c.convxRun()
 				c.ownRun()
 				c.funcxRun()
+				c.evxRun()
 			}
 			c.crashFamily()
 			if os.Getenv("CRASHDEBUG") != "" {
